@@ -186,13 +186,14 @@ def run_task(task):
         if isogen.field_class(bc) in ('fixed', 'num') and len(others) < 3:
             others.append([b] + isogen.default_variant(bc))
     for i, pset in enumerate(task['sets']):
-        codings = ('text', 'digits') if (task['fam'] == 'misc' or i % 4 == 0) else ('text',)
+        codings = ('text', 'digits', 'full') if (task['fam'] == 'misc' or i % 4 == 0) else \
+            ('text', 'full') if i % 4 == 2 else ('text',)
         for coding in codings:
             for with_others in ((False, True) if task['fam'] == 'misc' else (bool(i % 2),)):
                 case = {'cfg': task['cfg'], 'enc': task['enc'], 'hex': False, 'seed': task['seed'],
                         'f': others if with_others else [], 'pds': pset}
-                if coding == 'digits':
-                    case['pds_coding'] = 'digits'
+                if coding != 'text':
+                    case['pds_coding'] = coding
                 if i == 0 and coding == 'text':
                     s = dict(case)
                     if len(pset) > 8:
@@ -208,7 +209,8 @@ def describe(tier, seed):
         'rule': 'PDS sets [tag, value length]: (a) every (l1,l2) with 14+l1+l2 in 985..1005 (%d pairs, exhaustive '
                 'boundary sweep), (b) three-tag sets sweeping the second carrier boundary (%d), (c) zero-length values '
                 'first/middle/last, tags 0000/0001/0999/9999, 1..5 full carriers, 142/143/199 empty sub-elements, '
-                'mixed sets; values position-coded text and digit-only (header look-alikes); with and without '
+                'mixed sets; values position-coded text, digit-only (header look-alikes) and the non-ASCII single-byte characters of '
+                'the codec; with and without '
                 'neighbouring ordinary elements; packaged and generated carrier placement; latin_1/cp500/cp037; '
                 'in-place sequences: one configuration object whose set of carrier elements is edited between calls. '
                 'Oracle: carriers found by an independent reading of the dumps output, in ascending element order, '
